@@ -32,6 +32,7 @@ import (
 	"strconv"
 	"strings"
 	"sync"
+	"sync/atomic"
 	"time"
 	"unicode/utf8"
 	"verif/engine/explore"
@@ -71,13 +72,77 @@ func init() {
 
 type outcome struct {
 	pan  string // "" or "<origin>: <normalised message>"
+	skip bool   // the call was not made, or did not return (see parse)
 	tree ast.Stmt
 	err  error
 }
 
 var digits = regexp.MustCompile(`[0-9]+`)
 
-func parse(src string) (o outcome) {
+// hangAfter is how long one ParseSrc call may take before it is declared not to
+// return.  The longest text of any space (nesting depth 10000) parses in
+// milliseconds; the limit is four to five orders of magnitude above that, so
+// machine load cannot produce it.
+const hangAfter = 180 * time.Second
+
+var (
+	hung   atomic.Bool // a ParseSrc call did not return: the rest of the run is skipped
+	hangMu sync.Mutex
+	hangs  []string // the texts whose parse did not return
+)
+
+// parse runs one ParseSrc call on a goroutine of its own so that a call that
+// never returns is observed (the goroutine is abandoned; the process exits at
+// the end of the run).  After the first such call every later parse is skipped.
+func parse(src string) outcome {
+	if hung.Load() {
+		return outcome{skip: true}
+	}
+	ch := make(chan outcome, 1)
+	go func() { ch <- parse1(src) }()
+	select {
+	case o := <-ch:
+		return o
+	default:
+	}
+	tick := time.NewTicker(time.Second)
+	defer tick.Stop()
+	start := time.Now()
+	for {
+		select {
+		case o := <-ch:
+			return o
+		case <-tick.C:
+		}
+		waited := time.Since(start)
+		if waited < hangAfter {
+			// a scanning loop that appends without end: do not wait for the
+			// machine to run out of memory (the whole thorough run peaks below 1 GiB)
+			var ms runtime.MemStats
+			runtime.ReadMemStats(&ms)
+			if ms.HeapAlloc < heapLimit {
+				continue
+			}
+		}
+		hung.Store(true)
+		hangMu.Lock()
+		hangs = append(hangs, src)
+		if waited < hangAfter && emergency != nil {
+			emergency() // never returns; holds hangMu so that no second caller gets here
+		}
+		hangMu.Unlock()
+		return outcome{skip: true}
+	}
+}
+
+// heapLimit: a parse that has been running for more than a second while the
+// process heap is beyond this is reported like one that does not return.
+const heapLimit = 6 << 30
+
+// emergency is set by run: report what is known and exit at once.
+var emergency func()
+
+func parse1(src string) (o outcome) {
 	defer func() {
 		if r := recover(); r != nil {
 			origin := "?"
@@ -103,6 +168,9 @@ func parse(src string) (o outcome) {
 
 // signature is what must be identical between two parses of the same text.
 func (o outcome) signature() string {
+	if o.skip {
+		return "skipped"
+	}
 	if o.pan != "" {
 		return "panic " + o.pan
 	}
@@ -131,6 +199,9 @@ const (
 // parses behind unrelated texts (used only for the largest token space).
 func checkInput(src string, full bool) (fails []failure, o outcome) {
 	o = parse(src)
+	if o.skip {
+		return nil, o
+	}
 	if o.pan != "" {
 		return []failure{{"panic/" + o.pan, "ParseSrc panicked: " + o.pan}}, o
 	}
@@ -153,7 +224,11 @@ func checkInput(src string, full bool) (fails []failure, o outcome) {
 	}
 	sig := o.signature()
 	again := func(what string) {
-		if s2 := parse(src).signature(); s2 != sig {
+		o2 := parse(src)
+		if o2.skip {
+			return
+		}
+		if s2 := o2.signature(); s2 != sig {
 			cl := "memory/tree"
 			if strings.HasPrefix(s2, "panic") {
 				cl = "memory/panic"
@@ -215,7 +290,7 @@ func dumpList(l []ast.Stmt, shift int, pos bool) string {
 
 func mkProg(src string) (*prog, bool) {
 	o := parse(src)
-	if o.pan != "" || o.err != nil {
+	if o.skip || o.pan != "" || o.err != nil {
 		return nil, false
 	}
 	p := &prog{src: src, list: stmtList(o.tree), nl: strings.Count(src, "\n"), firstK: "(empty)", lastK: "(empty)"}
@@ -231,6 +306,9 @@ func mkProg(src string) (*prog, bool) {
 func checkPair(a, b *prog) (fails []failure) {
 	src := a.src + "\n" + b.src
 	o := parse(src)
+	if o.skip {
+		return nil
+	}
 	if o.pan != "" {
 		return []failure{{"panic/" + o.pan, "ParseSrc panicked on the concatenation: " + o.pan}}
 	}
@@ -519,6 +597,11 @@ func run(c *common.Ctx) *common.Result {
 		maxLen = 4
 	}
 	col := &collector{cases: map[string][]common.Violation{}, total: map[string]int64{}}
+	emergency = func() {
+		reportHangs(res)
+		res.Cap("a ParseSrc call allocated without end; the run was ended at once")
+		common.Emergency(c, res)
+	}
 
 	flush := func(t tally) {
 		for k, v := range t {
@@ -770,9 +853,30 @@ func run(c *common.Ctx) *common.Result {
 			res.Violate(v)
 		}
 	}
+	if hung.Load() {
+		hangMu.Lock()
+		reportHangs(res)
+		hangMu.Unlock()
+		res.Cap("a ParseSrc call did not return; every later parse of the run was skipped")
+		return res
+	}
 	concurrentPhase(c, res)
 	phase("concurrent")
 	return res
+}
+
+// reportHangs is called with hangMu held.
+func reportHangs(res *common.Result) {
+	{
+		sort.Slice(hangs, func(i, j int) bool {
+			return len(hangs[i]) < len(hangs[j]) || len(hangs[i]) == len(hangs[j]) && hangs[i] < hangs[j]
+		})
+		for _, h := range hangs {
+			res.Violate(common.Violation{Class: "termination/ParseSrc", Case: strconv.Quote(trunc(h, 200)),
+				Detail: fmt.Sprintf("ParseSrc did not return for this %d-byte text (limit %v, or more than a second with the heap beyond %d GiB; the other texts of the spaces parse in micro- to milliseconds); the rest of the run was skipped", len(h), hangAfter, heapLimit>>30),
+				Replay: replayRec{Space: "input", A: hex.EncodeToString([]byte(h))}})
+		}
+	}
 }
 
 func coverage(c *common.Ctx, r *common.Result) map[string]interface{} {
@@ -893,7 +997,7 @@ func init() {
 		ID: "C15", Level: "exploration", Run: run, Coverage: coverage, Replay: replay,
 		Assumptions: []string{
 			"sequential calls only: the clause 'also under concurrent calls' is not decided here",
-			"termination is observed as 'every ParseSrc call of the run returned'; there is no watchdog (every scanning loop of the lexer advances or stops at EOF), so a non-terminating parse would show as the check not finishing, never as a wrong verdict",
+			"termination: every ParseSrc call runs on its own goroutine; a call that has not returned after 180 s (the longest text parses in milliseconds) is reported as termination/ParseSrc and the rest of the run is skipped",
 			"(a) 43-byte alphabet, length ≤ 3 quick / ≤ 4 thorough; (b) 81 tokens (32 keywords, 24 one-character and 19 longer operators, a b 0 1 1.5 \"s\"), length ≤ 3 / ≤ 4, single blanks between tokens; (c) prefixes of ≈ 500 corpus programs incl. 12 bracket styles nested 64 deep, depth 1000 and 10000 once each; (d) ≈ 400 / ≈ 1500 parseable programs, all ordered pairs",
 			"error columns are checked against the number of runes of the line (the unit the lexer counts in); error messages are not compared",
 			"'same tree' = equal reflection-based structural dumps including positions (lib/astdump); a node whose position was never set (0:0: statement lists, else-if nodes, slices, channel expressions, the shared literal of ++/--) must stay unset, it is not shifted",
